@@ -12,6 +12,16 @@ from parso.python.parser import Parser
 from vp import treeoracle as TO
 
 WHY = None
+import gc as _gc
+import sys as _sys
+import warnings as _warnings
+
+
+def interpreter_state():
+    return (tuple(repr(f)[:120] for f in _warnings.filters), _sys.getrecursionlimit(), _gc.isenabled(), _sys.getswitchinterval())
+
+
+BASELINE_INTERP = interpreter_state()      # before any parse / listing of this process
 VERS = ['3.6', '3.10', '3.14']
 ALLV = ['3.6', '3.7', '3.8', '3.9', '3.10', '3.11', '3.12', '3.13', '3.14']
 G = {v: parso.load_grammar(version=v) for v in VERS}
@@ -182,6 +192,10 @@ def _isolation(vi, a, b, k):
     r = _memo_grew_only(before, after)
     if r:
         return _no(r)
+    if interpreter_state() != BASELINE_INTERP:
+        return _no('interpreter-global state changed since before the first parso call: warnings.filters / recursion limit / gc / '
+                   'switch interval: %r -> %r' % (BASELINE_INTERP[1:], interpreter_state()[1:]) +
+                   ' filters +%d' % (len(interpreter_state()[0]) - len(BASELINE_INTERP[0])))
     return True
 
 
